@@ -79,6 +79,8 @@ type allChain struct {
 	// PreExec: before a block is delivered every one of its transactions is first simulated and run through CheckTx in
 	// this process, as a node's RPC and mempool do; nothing of that may reach block execution (replicas do neither)
 	PreExec bool
+	// Extra transactions for the next block (appended after the workloads' own)
+	Extra []rig.Tx
 }
 
 func newAllChain(run *ev.Run, seed string, journal *rig.Journal, genesisTime time.Time) *allChain {
@@ -113,6 +115,8 @@ func (c *allChain) Step(dt time.Duration) *rig.BlockRecord {
 		txs = append(txs, w.Next(c.n)...)
 	}
 	c.n++
+	txs = append(txs, c.Extra...)
+	c.Extra = nil
 	if c.PreExec {
 		for _, tx := range txs {
 			func() {
